@@ -391,6 +391,8 @@ func (e *Engine) heapSortByName(c *FnCtx, name string) (string, bool) {
 		return "Int", true
 	case "OPAQUE":
 		return "Int", true
+	case "GH_out":
+		return "(Array Int Str)", true
 	case "HC_bool":
 		return "(Array Int Bool)", true
 	case "HC_int":
